@@ -281,6 +281,13 @@ class Sym:
                 if inv.dp is not None:
                     return _mul(self, inv)
         b = as_sym(o)
+        if b.alts is not None:
+            # divisor drawn from a finite set: distribute, each alternative is a division by a constant
+            parts = [(c, self / (fractions.Fraction(v, 10 ** b.dp))) for c, v in b.alts]
+            r = parts[-1][1]
+            for c, x in reversed(parts[:-1]):
+                r = ite(SymBool(c), x, r)
+            return r
         return Sym(self.r_() / b.r_(), None)
 
     def __rtruediv__(self, o):
